@@ -150,7 +150,7 @@ pub(crate) mod arrays {
     // [Fp61BitPrime; 15] "ProofDiff" message (120 bytes): lane-wise canonical, lossless
     harness! {
         #[kani::unwind(18)]
-        fn q09_proof_diff() {
+        fn t09_proof_diff() {
             type ProofDiff = [Fp61BitPrime; 15];
             let bytes: [u8; 120] = kani::any();
             let k: usize = kani::any();
@@ -171,6 +171,26 @@ pub(crate) mod arrays {
                     kani::cover!(true);
                 }
             }
+        }
+    }
+
+    harness! {
+        #[kani::unwind(18)]
+        fn q09_proof_diff_serialize() {
+            // encoding side of the 15-element proof message: every lane is written, little endian, in order
+            type ProofDiff = [Fp61BitPrime; 15];
+            let raw: [u64; 15] = kani::any();
+            let k: usize = kani::any();
+            kani::assume(k < 15);
+            kani::assume(raw[k] < P61);
+            let v: ProofDiff = unsafe { std::mem::transmute::<[u64; 15], ProofDiff>(raw) };
+            let mut out = [0xA5u8; 120];
+            v.serialize(ga_mut!(out));
+            let j: usize = kani::any();
+            kani::assume(j < 8);
+            assert!(out[8 * k + j] == raw[k].to_le_bytes()[j], "lane k (symbolic) is encoded at offset 8k");
+            kani::cover!(k == 14);
+            kani::cover!(true);
         }
     }
 }
